@@ -274,7 +274,7 @@ pub fn run_c05(p: &Params) -> Outcome {
             a.push(VOp::Set(m.len() - 1, 0));
             a.push(VOp::Truncate(m.len() - 1));
         }
-        for d in all_decs(m.len().min(3), &[Dec::Keep, Dec::Set(1), Dec::Remove, Dec::SetRemove(0)]) {
+        for d in all_decs(m.len().min(3), &[Dec::Keep, Dec::Set(1), Dec::Remove, Dec::SetRemove(0), Dec::SetSet(3, 4)]) {
             a.push(VOp::ForEach(d.clone()));
             a.push(VOp::Entries(d));
         }
@@ -715,7 +715,7 @@ pub fn run_c17(p: &Params) -> Outcome {
     let maxlen = if p.thorough { 6 } else { 5 };
     let trav = move |m: &[u32]| -> Vec<VOp> {
         let mut a = vec![];
-        for d in all_decs(m.len(), &[Dec::Keep, Dec::Set(9), Dec::Remove, Dec::SetRemove(8), Dec::Stop]) {
+        for d in all_decs(m.len(), &[Dec::Keep, Dec::Set(9), Dec::Remove, Dec::SetRemove(8), Dec::SetSet(6, 7), Dec::Stop]) {
             a.push(VOp::Entries(d.clone()));
             a.push(VOp::Txn(vec![VOp::Entries(d.clone())], TxEnd::Commit));
             if !d.contains(&Dec::Stop) {
